@@ -21,12 +21,12 @@ func match(doc, filter types.Value) (bool, error) {
 		}
 
 		if !strings.HasPrefix(key.String(), "$") {
-			d, ok := doc.(types.Map)
-			if !ok {
-				return false, errors.WithMessagef(ErrUnsupportedType, "doc: %v", types.InterfaceOf(doc))
+			var field types.Value
+			if d, ok := doc.(types.Map); ok {
+				field = d.Get(key)
 			}
 
-			ok, err := match(d.Get(key), value)
+			ok, err := match(field, value)
 			if err != nil {
 				return false, err
 			}
